@@ -23,7 +23,10 @@ def _accuracy(E, label, yd, ref, e, c):
 def tt_reshape(E, s):
     tn = E.tn
     N, R, M = s['N'], s['R'], s.get('M')
-    x, xc = so_tt_input(E, 'x', N, R, s['patterns'], M, sym_cores=s.get('sym_cores'))
+    if s.get('general'):
+        x, xc = tt_input(E, 'x', N, R, 'float64', M)      # arbitrary sign-free entries, rank-1 profile
+    else:
+        x, xc = so_tt_input(E, 'x', N, R, s['patterns'], M, sym_cores=s.get('sym_cores'))
     xd = dense(E, xc)
     eps, e = _eps(E, s, 1e-16)
     if M is None:
@@ -50,7 +53,10 @@ def tt_permute(E, s):
     tn = E.tn
     N, R, M = s['N'], s['R'], s.get('M')
     d = len(N)
-    x, xc = so_tt_input(E, 'x', N, R, s['patterns'], M, sym_cores=s.get('sym_cores'))
+    if s.get('general'):
+        x, xc = tt_input(E, 'x', N, R, 'float64', M)      # arbitrary sign-free entries, rank-1 profile
+    else:
+        x, xc = so_tt_input(E, 'x', N, R, s['patterns'], M, sym_cores=s.get('sym_cores'))
     xd = dense(E, xc)
     eps, e = _eps(E, s, 1e-12)
     dims = list(s['dims'])
@@ -72,7 +78,10 @@ def tt_permute(E, s):
 def tt_to_qtt(E, s):
     tn = E.tn
     N, R, M = s['N'], s['R'], s.get('M')
-    x, xc = so_tt_input(E, 'x', N, R, s['patterns'], M, sym_cores=s.get('sym_cores'))
+    if s.get('general'):
+        x, xc = tt_input(E, 'x', N, R, 'float64', M)      # arbitrary sign-free entries, rank-1 profile
+    else:
+        x, xc = so_tt_input(E, 'x', N, R, s['patterns'], M, sym_cores=s.get('sym_cores'))
     xd = dense(E, xc)
     eps, e = _eps(E, s, 1e-12)
     ms = s.get('mode_size', 2)
